@@ -29,7 +29,7 @@ import (
 // An acquisition: how the lock is taken and on which path.
 type acq struct {
 	Form string `json:"form"` // open, create, edit, rdonly, wronly, rdwr, mutex, mutexShared
-	Path string `json:"path"` // "p" or "q"; "d" is a directory (an acquisition may fail, then nothing is held), "f" a FIFO
+	Path string `json:"path"` // "p" or "q"; "d" is a directory (an acquisition may fail, then nothing is held), "f" a FIFO, "n" a path at which nothing exists when the holders start
 	Dup  bool   `json:"dup"`  // a copy of the descriptor exists while Close runs (a forked child that has not exec'd yet)
 }
 
@@ -201,6 +201,7 @@ func (in *instance) body() {
 	for _, p := range []string{"p", "q"} {
 		os.WriteFile(filepath.Join(in.dir, p), []byte("x"), 0o666)
 	}
+	os.Remove(filepath.Join(in.dir, "n")) // "n" does not exist when the holders start
 	os.Mkdir(filepath.Join(in.dir, "d"), 0o777)
 	if _, err := os.Lstat(filepath.Join(in.dir, "f")); err != nil {
 		if err := syscall.Mkfifo(filepath.Join(in.dir, "f"), 0o666); err != nil {
@@ -631,6 +632,13 @@ func scenarios(th bool) []scenario {
 		scenario{"create(fifo)||create(fifo)", [][]acq{{a("create", "f")}, {a("create", "f")}}, b2, false},
 		scenario{"rdwr+trunc(fifo)||rdwr(fifo)", [][]acq{{a(fmt.Sprintf("flags:%d", os.O_RDWR|os.O_TRUNC), "f")}, {a("rdwr", "f")}}, b2, false},
 		scenario{"M(fifo)||create(fifo)", [][]acq{{a("mutex", "f")}, {a("create", "f")}}, b2, false})
+	// a path that does not exist yet: the first holder creates it
+	scs = append(scs,
+		scenario{"M(new)||M(new)", [][]acq{{a("mutex", "n")}, {a("mutex", "n")}}, b2, false},
+		scenario{"M(new)||M(new)||M(new)", [][]acq{{a("mutex", "n")}, {a("mutex", "n")}, {a("mutex", "n")}}, b3 + 1, false},
+		scenario{"M(new);M(new)||M(new)", [][]acq{{a("mutex", "n"), a("mutex", "n")}, {a("mutex", "n")}}, b2, false},
+		scenario{"create(new)||edit(new)||M(new)", [][]acq{{a("create", "n")}, {a("edit", "n")}, {a("mutex", "n")}}, b3, false},
+		scenario{"edit(new)||edit(new)", [][]acq{{a("edit", "n")}, {a("edit", "n")}}, b2, false})
 	// every combination of access mode and open flags a caller may legally pass:
 	// write modes exclude a reader and another writer, read modes share
 	fb := 2
